@@ -52,9 +52,17 @@ PBT_PROPERTY(merge_iters) {
     cfg.pair = (int)src.weighted({5, 4, 3, 3, 2, 3, 3, 3});
     cfg.iters = true;
     const bool st = c05::entry_stable(cfg.entry);
-    switch (type) {
-    case 0: st ? c05::run_it_rec8_s(src, cfg) : c05::run_it_rec8_u(src, cfg); break;
-    case 1: st ? c05::run_it_rech_s(src, cfg) : c05::run_it_rech_u(src, cfg); break;
-    default: st ? c05::run_it_recs_s(src, cfg) : c05::run_it_recs_u(src, cfg); break;
+    if (cfg.pair < 4) {
+        switch (type) {
+        case 0: st ? c05::run_it_rec8_s(src, cfg) : c05::run_it_rec8_u(src, cfg); break;
+        case 1: st ? c05::run_it_rech_s(src, cfg) : c05::run_it_rech_u(src, cfg); break;
+        default: st ? c05::run_it_recs_s(src, cfg) : c05::run_it_recs_u(src, cfg); break;
+        }
+    } else {
+        switch (type) {
+        case 0: st ? c05::run_it_rec8_s_b(src, cfg) : c05::run_it_rec8_u_b(src, cfg); break;
+        case 1: st ? c05::run_it_rech_s_b(src, cfg) : c05::run_it_rech_u_b(src, cfg); break;
+        default: st ? c05::run_it_recs_s_b(src, cfg) : c05::run_it_recs_u_b(src, cfg); break;
+        }
     }
 }
